@@ -4,6 +4,8 @@
   self.context, return it" — the summary the set_context contracts use for `super().set_context(...)`.
 * `C02.frame.instruction-compiler` (syntactic): InstructionCompiler.compileGlyphInstructions and what it calls inside the class only
   assign `.program` / `.flags` / `.flags[0]` — the frame summary used by the setupTable_glyf contract.
+* `C02.frame.component-attributes` (syntactic): flattenComponents.py and util.getMaxComponentDepth never assign a component's
+  `baseGlyph` / `transformation` (modelled as immutable in the contracts).
 * bounded, exhaustive small scope: util.getMaxComponentDepth on EVERY component graph over 3 glyph names (each glyph: up to
   two components drawn from the three names and one missing name): raises InvalidFontData iff a cycle is reachable from the
   start glyph; otherwise 0 < result <= true height iff the glyph has components.  (No deductive contract: "a cycle is
@@ -111,6 +113,29 @@ def scan_instruction_compiler_frame():
                         if not (isinstance(x.value, ast.Attribute) and x.value.attr == "flags"):
                             fails.append((f"{where}:{x.lineno}", f"{m} stores to {ast.unparse(x)}"))
     return 3, fails
+
+
+def scan_component_attributes():
+    """C02.frame.component-attributes: contracts/c02.py models a component's `baseGlyph` / `transformation` as immutable (functions of the
+    component object).  That is what the code under contract does: filters/flattenComponents.py and util.getMaxComponentDepth never store to
+    an attribute `.baseGlyph` / `.transformation` (nor call setattr).  Two obligations (one per place)."""
+    fails = []
+    places = []
+    tree = ast.parse(open(os.path.join(REPO, "Lib", "ufo2ft", "filters", "flattenComponents.py"), encoding="utf-8").read())
+    places.append(("Lib/ufo2ft/filters/flattenComponents.py", tree))
+    util = ast.parse(open(os.path.join(REPO, "Lib", "ufo2ft", "util.py"), encoding="utf-8").read())
+    fn = next((n for n in util.body if isinstance(n, ast.FunctionDef) and n.name == "getMaxComponentDepth"), None)
+    if fn is None:
+        fails.append(("Lib/ufo2ft/util.py", "getMaxComponentDepth not found"))
+    else:
+        places.append(("Lib/ufo2ft/util.py:getMaxComponentDepth", fn))
+    for where, root in places:
+        for n in ast.walk(root):
+            if isinstance(n, ast.Attribute) and isinstance(n.ctx, (ast.Store, ast.Del)) and n.attr in ("baseGlyph", "transformation"):
+                fails.append((f"{where}:{n.lineno}", f"stores to {ast.unparse(n)} (component attributes are modelled as immutable)"))
+            if isinstance(n, ast.Call) and isinstance(n.func, ast.Name) and n.func.id in ("setattr", "delattr"):
+                fails.append((f"{where}:{n.lineno}", f"{n.func.id}(...) (component attributes are modelled as immutable)"))
+    return 2, fails
 
 
 # ---- getMaxComponentDepth: exhaustive small scope ------------------------------------------------------------------------
@@ -415,7 +440,8 @@ def gen_case(rng, k):
 @hook("C02")
 def c02_bounded(tier, seed):
     res = {"obligations": 0, "discharged": 0, "violations": [], "checker_errors": [], "evaluations": 0, "distinct": 0, "bounded": [], "trusted": [], "assumptions": []}
-    for oname, scan in (("base-set-context", scan_base_set_context), ("instruction-compiler", scan_instruction_compiler_frame)):
+    for oname, scan in (("base-set-context", scan_base_set_context), ("instruction-compiler", scan_instruction_compiler_frame),
+                        ("component-attributes", scan_component_attributes)):
         try:
             obs, fails = scan()
             res["obligations"] += obs
